@@ -9,7 +9,10 @@ from sa.asn1shape import Item, ReaderShape, WriterShape
 from sa.flow import ReachingDefs
 from sa.load import AnalysisError, Cls, Func, Repo, body_nodes, unparse
 from sa.report import Check, Site
+from sa.pathsum import Summary
 from sa.symeval import parse_type
+
+from .util import args_of, ev_args, recv_of
 
 CMS = ["_pkcs7.ContentInfo", "_pkcs7.EnvelopedData", "_pkcs7.KEKRecipientInfo", "_pkcs7.KEKIdentifier", "_pkcs7.OtherKeyAttribute", "_pkcs7.EncryptedContentInfo", "_pkcs7.AlgorithmIdentifier"]
 
@@ -159,27 +162,55 @@ def protection_descriptor(repo: Repo, chk: Check) -> None:
     rsig = [i.sig(False) for i in r]
     ok = wsig == rsig
     chk.ob("O1", Site.of(fr, construct="ProtectionDescriptor shape"), ok, "SEQUENCE{OID, SEQUENCE{SEQUENCE{SEQUENCE{UTF8 type, UTF8 value}}}} on both sides" if ok else f"ProtectionDescriptor shapes differ: written {[i.describe() for i in w]} read {[i.describe() for i in r]}")
-    # value correspondence
-    txt = unparse(fw.node)
-    okv = "write_object_identifier(self.type.value)" in txt and "write_utf8_string(self.type.name)" in txt and "write_utf8_string(self.value)" in txt
-    chk.ob("O1", Site.of(fw, construct="ProtectionDescriptor values"), okv, "OID = type OID, strings = type name then value")
-    rtxt = unparse(fr.node)
-    okr = "content_type == ProtectionDescriptorType.SID.value and value_type == 'SID'" in rtxt and "return SIDDescriptor(value)" in rtxt
-    chk.ob("O1", Site.of(fr, construct="ProtectionDescriptor dispatch"), okr, "SID descriptors are rebuilt from the value string; others are rejected")
+    # value correspondence (path summaries: independent of local names and guard style)
+    sw = Summary(fw, ["self"])
+    for ps in sw.returning():
+        oid = [ps.text(a) for c in ps.calls("write_object_identifier") for a in t.cast(ast.Call, c.tree).args]
+        strs = [ps.text(a) for c in ps.calls("write_utf8_string") for a in t.cast(ast.Call, c.tree).args]
+        okv = oid == ["self.type.value"] and strs == ["self.type.name", "self.value"]
+        chk.ob("O1", Site.of(fw, construct="ProtectionDescriptor values"), okv, "OID = type OID, strings = type name then value" if okv else f"pack writes OID {oid} and strings {strs}, expected [self.type.value] and [self.type.name, self.value]")
+        v = ps.value
+        okr = isinstance(v, ast.Call) and isinstance(v.func, ast.Attribute) and v.func.attr == "get_data" and ps.text(v.func.value) == "ASN1Writer()" and any(ps.key(recv_of(t.cast(ast.Call, c.tree))) == ps.key(v.func.value) for c in ps.calls("push_sequence"))
+        chk.ob("O3", Site.of(fw, ps.exit_node, None if ps.exit_node is not None else "return"), bool(okr), "returns the root writer's bytes")
+    sr = Summary(fr, ["cls", "data"])
+    nret = 0
+    for ps in sr.returning():
+        nret += 1
+        oids, strs = ps.calls("read_object_identifier"), ps.calls("read_utf8_string")
+        if len(oids) != 1 or len(strs) != 2:
+            chk.ob("O1", Site.of(fr, construct="ProtectionDescriptor dispatch"), False, "unpack no longer reads one OID and two strings")
+            continue
+        abbr = {"OID": oids[0].tree, "TYPE": strs[0].tree, "VALUE": strs[1].tree}
+        eqc = ps.eq_consts(repo, abbr)
+        okr = eqc.get("OID") == REF["sid_descriptor_oid"] and eqc.get("TYPE") == "SID" and ps.short(ps.value, abbr) == "SIDDescriptor(VALUE)"
+        chk.ob("O1", Site.of(fr, ps.exit_node, "ProtectionDescriptor dispatch"), okr, "SID descriptors are rebuilt from the value string; others are rejected" if okr else f"unpack returns {ps.short(ps.value, abbr)} under {eqc}: only OID {REF['sid_descriptor_oid']} with type 'SID' may become SIDDescriptor(value read)")
+    chk.ob("O1", Site.of(fr, construct="ProtectionDescriptor dispatch"), nret >= 1 and bool(sr.raising()), "other descriptor types are rejected")
     okf, v = repo.try_fold(ast.parse("ProtectionDescriptorType.SID.value", mode="eval").body, cls.mod)
     chk.ob("O2", Site.of(fr, construct="SID descriptor OID"), okf and v == REF["sid_descriptor_oid"], f"SID descriptor OID {v}")
-    rets = [n for n in body_nodes(fw.node) if isinstance(n, ast.Return)]
-    chk.ob("O3", Site.of(fw, rets[0] if rets else None, None if rets else "return"), len(rets) == 1 and unparse(rets[0].value) == f"{unparse(local[0].targets[0])}.get_data()", "returns the root writer's bytes")
 
 
 def recipient_dispatch(repo: Repo, chk: Check) -> None:
     f = repo.method("_pkcs7.RecipientInfo", "unpack")
     chk.analysed(f)
-    txt = unparse(f.node)
-    ok = "tag.tag_class == TagClass.CONTEXT_SPECIFIC and tag.tag_number == KEKRecipientInfo.choice" in txt and "return KEKRecipientInfo.unpack(reader, header=header)" in txt and "header = reader.peek_header()" in txt
-    chk.ob("O1", Site.of(f, construct="RecipientInfo choice dispatch"), ok, "kekri [2] is dispatched to KEKRecipientInfo with the peeked header" if ok else "the RecipientInfo CHOICE is not dispatched on context tag = KEKRecipientInfo.choice")
-    rais = [n for n in body_nodes(f.node) if isinstance(n, ast.Raise)]
-    chk.ob("O1", Site.of(f, construct="other choices rejected"), bool(rais), "other recipient kinds raise NotImplementedError")
+    summ = Summary(f, ["cls", "reader"])
+    n = 0
+    for ps in summ.returning():
+        n += 1
+        peek = [c for c in ps.calls("peek_header") if ps.text(recv_of(t.cast(ast.Call, c.tree))) == "reader"]
+        site = Site.of(f, ps.exit_node, "RecipientInfo choice dispatch")
+        if not peek:
+            chk.ob("O1", site, False, "the RecipientInfo CHOICE is not dispatched on the peeked header")
+            continue
+        abbr = {"H": peek[0].tree}
+        eqc = ps.eq_consts(repo, abbr)
+        cls_ok = eqc.get("H.tag.tag_class") == 2 and eqc.get("H.tag.tag_number") == REF["kek_choice"]
+        v = ps.value
+        a = args_of(repo, f, v) if isinstance(v, ast.Call) else {}
+        ret_ok = isinstance(v, ast.Call) and ps.text(v.func) == "KEKRecipientInfo.unpack" and ps.text(a.get("reader")) == "reader" and a.get("header") is not None and ps.key(a["header"]) == ps.key(peek[0].tree)
+        ok = cls_ok and ret_ok
+        chk.ob("O1", site, bool(ok), "kekri [2] is dispatched to KEKRecipientInfo with the peeked header" if ok else f"the RecipientInfo CHOICE is not dispatched on context tag = KEKRecipientInfo.choice (tests: {eqc}; returns {ps.short(v, abbr)})")
+    chk.ob("O1", Site.of(f, construct="RecipientInfo choice dispatch"), n >= 1, f"{n} dispatching path(s)")
+    chk.ob("O1", Site.of(f, construct="other choices rejected"), bool(summ.raising()), "other recipient kinds raise NotImplementedError")
 
 
 def _kw(call: ast.Call, cls: Cls) -> t.Dict[str, ast.expr]:
@@ -194,87 +225,112 @@ def constants(repo: Repo, chk: Check) -> None:
     fp, fu = blob.methods["pack"], blob.methods["unpack"]
     chk.analysed(fp, fu)
 
-    def fold(e: t.Optional[ast.expr], f: Func) -> t.Any:
+    def foldv(e: t.Optional[ast.expr], f: Func) -> t.Any:
         okf, v = repo.try_fold(e, f.mod)
         return getattr(v, "value", v) if okf else None
 
-    def ctor(name: str) -> ast.Call:
-        c = [n for n in body_nodes(fp.node) if isinstance(n, ast.Call) and unparse(n.func) == name]
-        if len(c) != 1:
-            raise AnalysisError(f"DPAPINGBlob.pack: {name}(...) construction changed")
-        return c[0]
-
     # ---- emitted
-    ri = _kw(ctor("KEKRecipientInfo"), repo.cls("_pkcs7.KEKRecipientInfo"))
-    ed = _kw(ctor("EnvelopedData"), repo.cls("_pkcs7.EnvelopedData"))
-    ci = _kw(ctor("ContentInfo"), repo.cls("_pkcs7.ContentInfo"))
-    eci = _kw(ctor("EncryptedContentInfo"), repo.cls("_pkcs7.EncryptedContentInfo"))
-    oka = _kw(ctor("OtherKeyAttribute"), repo.cls("_pkcs7.OtherKeyAttribute"))
-    kid = _kw(ctor("KEKIdentifier"), repo.cls("_pkcs7.KEKIdentifier"))
-    emitted = {
-        "kek_version": fold(ri.get("version"), fp),
-        "enveloped_version": fold(ed.get("version"), fp),
-        "enveloped_data_oid": fold(ci.get("content_type"), fp),
-        "data_oid": fold(eci.get("content_type"), fp),
-        "key_attr_oid": fold(oka.get("key_attr_id"), fp),
-    }
-    kcls = repo.cls("_pkcs7.KEKRecipientInfo")
-    ch = kcls.field("choice")
-    emitted["kek_choice"] = fold(ch.default, kcls.methods["pack"]) if ch is not None else None
-    site = Site.of(fp, construct="emitted CMS constants")
-    for k, v in emitted.items():
-        chk.count("constants")
-        chk.ob("O2", Site.of(fp, construct=f"emitted {k}"), v == REF[k], f"{k} = {v}" if v == REF[k] else f"pack emits {k} = {v!r}, the reference layout has {REF[k]!r}")
-    one = isinstance(ed.get("recipient_infos"), ast.List) and len(ed["recipient_infos"].elts) == 1 and unparse(ed["recipient_infos"].elts[0]) == "recipient_info"  # type: ignore[union-attr]
-    chk.ob("O2", site, bool(one), "exactly one recipient info" if one else f"recipient_infos is {unparse(ed.get('recipient_infos'))}")
-    okk = unparse(kid.get("key_identifier")) == "self.key_identifier.pack()" and unparse(oka.get("key_attr")) == "self.protection_descriptor.pack()" and "date" not in kid
-    chk.ob("O2", site, okk, "KEK id = packed key identifier, attribute = packed protection descriptor, no date" if okk else "KEKIdentifier is not (key identifier bytes, no date, protection descriptor attribute)")
-    # algorithm identifiers carry the blob's fields
-    algs = sorted([n for n in body_nodes(fp.node) if isinstance(n, ast.Call) and unparse(n.func) == "AlgorithmIdentifier"], key=lambda n: n.lineno)
-    acls = repo.cls("_pkcs7.AlgorithmIdentifier")
-    got = [[unparse(v) for v in _kw(a, acls).values()] for a in algs]
-    okal = got == [["self.enc_cek_algorithm", "self.enc_cek_parameters"], ["self.enc_content_algorithm", "self.enc_content_parameters"]]
-    chk.ob("O2", site, okal, "key-encryption and content-encryption algorithm identifiers carry the blob's own fields" if okal else f"algorithm identifiers are built from {got}")
-    okek = unparse(ri.get("encrypted_key")) == "self.enc_cek"
-    chk.ob("O2", site, okek, "encryptedKey = wrapped CEK")
+    sp = Summary(fp, ["self", "blob_in_envelope"])
+    if not sp.returning():
+        raise AnalysisError("DPAPINGBlob.pack: no returning path")
+    for ps in sp.returning():
+        def ctor(name: str) -> ast.Call:
+            c = ps.calls(name)
+            c = [x for x in c if ps.text(t.cast(ast.Call, x.tree).func) == name]
+            if len(c) != 1:
+                raise AnalysisError(f"DPAPINGBlob.pack: {name}(...) construction changed")
+            return t.cast(ast.Call, c[0].tree)
+
+        ri = _kw(ctor("KEKRecipientInfo"), repo.cls("_pkcs7.KEKRecipientInfo"))
+        ed = _kw(ctor("EnvelopedData"), repo.cls("_pkcs7.EnvelopedData"))
+        ci = _kw(ctor("ContentInfo"), repo.cls("_pkcs7.ContentInfo"))
+        eci = _kw(ctor("EncryptedContentInfo"), repo.cls("_pkcs7.EncryptedContentInfo"))
+        oka = _kw(ctor("OtherKeyAttribute"), repo.cls("_pkcs7.OtherKeyAttribute"))
+        kid = _kw(ctor("KEKIdentifier"), repo.cls("_pkcs7.KEKIdentifier"))
+        emitted = {
+            "kek_version": foldv(ri.get("version"), fp),
+            "enveloped_version": foldv(ed.get("version"), fp),
+            "enveloped_data_oid": foldv(ci.get("content_type"), fp),
+            "data_oid": foldv(eci.get("content_type"), fp),
+            "key_attr_oid": foldv(oka.get("key_attr_id"), fp),
+        }
+        kcls = repo.cls("_pkcs7.KEKRecipientInfo")
+        ch = kcls.field("choice")
+        emitted["kek_choice"] = foldv(ch.default, kcls.methods["pack"]) if ch is not None else None
+        site = Site.of(fp, construct="emitted CMS constants")
+        for k, v in emitted.items():
+            chk.count("constants")
+            chk.ob("O2", Site.of(fp, construct=f"emitted {k}"), v == REF[k], f"{k} = {v}" if v == REF[k] else f"pack emits {k} = {v!r}, the reference layout has {REF[k]!r}")
+        rl = ed.get("recipient_infos")
+        one = isinstance(rl, (ast.List, ast.Tuple)) and len(rl.elts) == 1 and ps.key(rl.elts[0]) == ps.key(ctor("KEKRecipientInfo"))
+        chk.ob("O2", site, bool(one), "exactly one recipient info" if one else f"recipient_infos is {ps.text(rl)[:120]}")
+        okk = ps.text(kid.get("key_identifier")) == "self.key_identifier.pack()" and ps.text(oka.get("key_attr")) == "self.protection_descriptor.pack()" and (kid.get("date") is None or ps.text(kid.get("date")) == "None") and kid.get("other") is not None and ps.key(kid["other"]) == ps.key(ctor("OtherKeyAttribute")) and ri.get("kekid") is not None and ps.key(ri["kekid"]) == ps.key(ctor("KEKIdentifier"))
+        chk.ob("O2", site, okk, "KEK id = packed key identifier, attribute = packed protection descriptor, no date" if okk else "KEKIdentifier is not (key identifier bytes, no date, protection descriptor attribute)")
+        # algorithm identifiers carry the blob's fields
+        acls = repo.cls("_pkcs7.AlgorithmIdentifier")
+
+        def alg(e: t.Optional[ast.expr]) -> t.List[str]:
+            if isinstance(e, ast.Call) and ps.text(e.func) == "AlgorithmIdentifier":
+                kw = _kw(e, acls)
+                return [ps.text(kw.get("algorithm")), ps.text(kw.get("parameters"))]
+            return [ps.text(e)]
+
+        got = [alg(ri.get("key_encryption_algorithm")), alg(eci.get("algorithm"))]
+        okal = got == [["self.enc_cek_algorithm", "self.enc_cek_parameters"], ["self.enc_content_algorithm", "self.enc_content_parameters"]]
+        chk.ob("O2", site, okal, "key-encryption and content-encryption algorithm identifiers carry the blob's own fields" if okal else f"algorithm identifiers are built from {got}")
+        okek = ps.text(ri.get("encrypted_key")) == "self.enc_cek"
+        chk.ob("O2", site, okek, "encryptedKey = wrapped CEK")
+        okeci = ed.get("encrypted_content_info") is not None and ps.key(ed["encrypted_content_info"]) == ps.key(ctor("EncryptedContentInfo"))
+        chk.ob("O2", site, okeci, "the EnvelopedData carries that EncryptedContentInfo")
     # ---- validated by unpack (must equal what pack emits)
-    utxt = unparse(fu.node)
-    validated = {
-        "enveloped_data_oid": "content_info.content_type != EnvelopedData.CONTENT_TYPE_ENVELOPED_DATA_OID" in utxt,
-        "enveloped_version": "enveloped_data.version != 2" in utxt,
-        "one recipient": "len(enveloped_data.recipient_infos) != 1" in utxt,
-        "kek recipient": "not isinstance(enveloped_data.recipient_infos[0], KEKRecipientInfo)" in utxt,
-        "kek_version": "enveloped_data.recipient_infos[0].version != 4" in utxt,
-        "key_attr_oid": "kek_info.kekid.other.key_attr_id != DPAPINGBlob.MICROSOFT_SOFTWARE_OID" in utxt,
-    }
-    for k, v in validated.items():
-        chk.ob("O2", Site.of(fu, construct=f"validated {k}"), v, f"unpack validates {k}" if v else f"unpack no longer validates {k}: a blob this library would never emit is accepted")
+    su = Summary(fu, ["cls", "data"])
+    if not su.returning():
+        raise AnalysisError("DPAPINGBlob.unpack: no returning path")
+    for ps in su.returning():
+        cis, eds = ps.calls("ContentInfo.unpack"), ps.calls("EnvelopedData.unpack")
+        if len(cis) != 1 or len(eds) != 1:
+            raise AnalysisError("DPAPINGBlob.unpack: ContentInfo / EnvelopedData decoding changed")
+        abbr = {"CI": cis[0].tree, "ED": eds[0].tree}
+        eqc = ps.eq_consts(repo, abbr)
+        facts = ps.facts(abbr=abbr)
+        validated = {
+            "enveloped_data_oid": eqc.get("CI.content_type") == REF["enveloped_data_oid"],
+            "enveloped_version": eqc.get("ED.version") == REF["enveloped_version"],
+            "one recipient": eqc.get("len(ED.recipient_infos)") == 1,
+            "kek recipient": "isinstance(ED.recipient_infos[0], KEKRecipientInfo)" in facts,
+            "kek_version": eqc.get("ED.recipient_infos[0].version") == REF["kek_version"],
+            "key_attr_oid": eqc.get("ED.recipient_infos[0].kekid.other.key_attr_id") == REF["key_attr_oid"],
+        }
+        for k, v in validated.items():
+            chk.ob("O2", Site.of(fu, construct=f"validated {k}"), v, f"unpack validates {k}" if v else f"unpack no longer validates {k}: a blob this library would never emit is accepted")
     ev = repo.method("_pkcs7.EnvelopedData", "unpack")
-    okev = "if version != 2:" in unparse(ev.node)
-    chk.ob("O2", Site.of(ev, construct="EnvelopedData version"), okev, "EnvelopedData.unpack requires version 2")
+    okev = True
+    sev = Summary(ev)
+    for ps in sev.returning():
+        ri_ = [c for c in ps.calls("read_integer")]
+        eqc = ps.eq_consts(repo, {"VERSION": ri_[0].tree} if ri_ else {})
+        okev = okev and eqc.get("VERSION") == REF["enveloped_version"]
+    chk.ob("O2", Site.of(ev, construct="EnvelopedData version"), okev and bool(sev.returning()), "EnvelopedData.unpack requires version 2")
     # ---- what _encrypt_blob puts into those fields
     eb = repo.func("_client._encrypt_blob")
     chk.analysed(eb)
-    rd = ReachingDefs(eb)
-    bc = [n for n in body_nodes(eb.node) if isinstance(n, ast.Call) and unparse(n.func) == "DPAPINGBlob"]
-    if len(bc) != 1:
-        raise AnalysisError("_encrypt_blob: DPAPINGBlob construction changed")
-    kws = {k.arg: k.value for k in bc[0].keywords if k.arg}
-
-    def origin_const(name: str) -> t.Any:
-        e = kws.get(name)
-        if isinstance(e, ast.Name):
-            d = rd.single_def(e.id, bc[0])
-            if d is not None and d.value is not None:
-                return fold(d.value, eb)
-        return fold(e, eb)
-
-    for field, ref in (("enc_cek_algorithm", "aes256_wrap"), ("enc_content_algorithm", "aes256_gcm")):
-        v = origin_const(field)
-        chk.count("constants")
-        chk.ob("O2", Site.of(eb, bc[0], f"DPAPINGBlob({field}=...)"), v == REF[ref], f"{field} = {v}" if v == REF[ref] else f"{field} is {v!r}, expected {REF[ref]!r}")
-    v = origin_const("enc_cek_parameters")
-    chk.ob("O2", Site.of(eb, bc[0], "DPAPINGBlob(enc_cek_parameters=...)"), v is None and "enc_cek_parameters" in kws, "AES key wrap carries no parameters")
+    seb = Summary(eb, ["blob", "key", "protection_descriptor"])
+    for ps in seb.returning():
+        bc = [c for c in ps.calls("DPAPINGBlob") if ps.text(t.cast(ast.Call, c.tree).func) == "DPAPINGBlob"]
+        if len(bc) != 1:
+            raise AnalysisError("_encrypt_blob: DPAPINGBlob construction changed")
+        kws = _kw(t.cast(ast.Call, bc[0].tree), blob)
+        for field, ref in (("enc_cek_algorithm", "aes256_wrap"), ("enc_content_algorithm", "aes256_gcm")):
+            v = foldv(kws.get(field), eb)
+            chk.count("constants")
+            chk.ob("O2", Site.of(eb, bc[0].node, f"DPAPINGBlob({field}=...)"), v == REF[ref], f"{field} = {v}" if v == REF[ref] else f"{field} is {v!r}, expected {REF[ref]!r}")
+        v = foldv(kws.get("enc_cek_parameters"), eb)
+        chk.ob("O2", Site.of(eb, bc[0].node, "DPAPINGBlob(enc_cek_parameters=...)"), v is None and "enc_cek_parameters" in kws and ps.text(kws["enc_cek_parameters"]) == "None", "AES key wrap carries no parameters")
+        okp = ps.text(kws.get("enc_content_parameters")) == "ASN1Writer().get_data()"
+        chk.ob("O3", Site.of(eb, bc[0].node, "raw parameters provenance"), okp, "the raw parameters inserted into the AlgorithmIdentifier were produced by this package's DER writer" if okp else "enc_content_parameters does not come from the package's own ASN1Writer")
+        v2 = ps.value
+        okr = isinstance(v2, ast.Call) and isinstance(v2.func, ast.Attribute) and v2.func.attr == "pack" and ps.key(v2.func.value) == ps.key(bc[0].tree) and not v2.args and not v2.keywords
+        chk.ob("O2", Site.of(eb, ps.exit_node, None if ps.exit_node is not None else "return"), okr, "emits the default (in-envelope) layout")
     # GCM parameters SEQUENCE { OCTET STRING nonce, INTEGER 16 }
     local = [n for n in body_nodes(eb.node) if isinstance(n, ast.Assign) and unparse(n.value) == "ASN1Writer()"]
     if local:
@@ -287,34 +343,57 @@ def constants(repo: Repo, chk: Check) -> None:
                 ws.block([s], None)
         shape = ws.writers[name]
         ok = len(shape) == 1 and shape[0].kind == "seq" and shape[0].tag == ("UNIVERSAL", 16, True) and [c.kind for c in shape[0].children] == ["prim:octet_string", "prim:integer"] and all(c.tag in (("UNIVERSAL", 4, False), ("UNIVERSAL", 2, False)) for c in shape[0].children)
-        icv = fold(ast.parse(shape[0].children[1].field or "None", mode="eval").body, eb) if ok else None
+        icv = foldv(ast.parse(shape[0].children[1].field or "None", mode="eval").body, eb) if ok else None
         ok = ok and icv == REF["gcm_icv_len"]
         chk.ob("O2", Site.of(eb, shape[0].node if shape else None, None if shape else "GCM parameters"), bool(ok), "GCMParameters = SEQUENCE{OCTET STRING nonce, INTEGER 16}" if ok else f"GCM parameters are {[i.describe() for i in shape]} (RFC 5084: SEQUENCE{{aes-nonce OCTET STRING, aes-ICVlen INTEGER}}, Windows uses 16)")
-        d = rd.single_def(unparse(kws.get("enc_content_parameters")), bc[0]) if isinstance(kws.get("enc_content_parameters"), ast.Name) else None
-        okp = d is not None and d.value is not None and unparse(d.value) == f"{name}.get_data()"
-        chk.ob("O3", Site.of(eb, bc[0], "raw parameters provenance"), okp, "the raw parameters inserted into the AlgorithmIdentifier were produced by this package's DER writer" if okp else "enc_content_parameters does not come from the package's own ASN1Writer")
     else:
         chk.ob("O2", Site.of(eb, construct="GCM parameters"), False, "the GCM parameters are not built with the package's ASN1Writer")
-    rets = [n for n in body_nodes(eb.node) if isinstance(n, ast.Return)]
-    okr = len(rets) == 1 and isinstance(rets[0].value, ast.Call) and unparse(rets[0].value.func).endswith(".pack") and rets[0].value.func.value is bc[0] and not rets[0].value.args and not rets[0].value.keywords  # type: ignore[union-attr]
-    chk.ob("O2", Site.of(eb, rets[0] if rets else None, None if rets else "return"), okr, "emits the default (in-envelope) layout")
     chk.require_min("constants", 8)
 
 
 def layouts(repo: Repo, chk: Check) -> None:
     blob = repo.cls("_blob.DPAPINGBlob")
     fp, fu = blob.methods["pack"], blob.methods["unpack"]
-    ecic = [n for n in body_nodes(fp.node) if isinstance(n, ast.Call) and unparse(n.func) == "EncryptedContentInfo"]
-    kws = {k.arg: k.value for k in ecic[0].keywords if k.arg} if ecic else {}
-    c = kws.get("content")
-    ok = isinstance(c, ast.IfExp) and unparse(c.test) == "blob_in_envelope" and unparse(c.body) == "self.enc_content" and unparse(c.orelse) == "b''"
-    chk.ob("O4", Site.of(fp, c if c is not None else None, None if c is not None else "content placement"), ok, "content inside the envelope iff blob_in_envelope" if ok else f"EncryptedContentInfo.content is {unparse(c) if c is not None else 'missing'}")
-    rets = [n for n in body_nodes(fp.node) if isinstance(n, ast.Return)]
-    okt = False
-    if len(rets) == 1 and isinstance(rets[0].value, ast.Call) and unparse(rets[0].value.func) == "b''.join" and isinstance(rets[0].value.args[0], ast.List):
-        el = rets[0].value.args[0].elts
-        okt = len(el) == 2 and unparse(el[0]) == "writer.get_data()" and isinstance(el[1], ast.IfExp) and unparse(el[1].test) == "blob_in_envelope" and unparse(el[1].body) == "b''" and unparse(el[1].orelse) == "self.enc_content"
-    chk.ob("O4", Site.of(fp, rets[0] if rets else None, None if rets else "return"), okt, "content trails the ContentInfo iff not blob_in_envelope" if okt else "the trailing layout is not 'ContentInfo || enc_content' exactly when the content is not in the envelope")
+    sp = Summary(fp, ["self", "blob_in_envelope"])
+    seen = set()
+    for ps in sp.returning():
+        facts = ps.facts()
+        inside = "blob_in_envelope" in facts
+        outside = "not (blob_in_envelope)" in facts
+        site = Site.of(fp, ps.exit_node, None if ps.exit_node is not None else "return")
+        if inside == outside:
+            chk.ob("O4", site, False, "a returning path of pack does not depend on blob_in_envelope: the two layouts are not told apart")
+            continue
+        seen.add(inside)
+        ecic = [c for c in ps.calls("EncryptedContentInfo") if ps.text(t.cast(ast.Call, c.tree).func) == "EncryptedContentInfo"]
+        c = _kw(t.cast(ast.Call, ecic[0].tree), repo.cls("_pkcs7.EncryptedContentInfo")).get("content") if len(ecic) == 1 else None
+        want_c = "self.enc_content" if inside else "b''"
+        ok = c is not None and ps.text(c) == want_c
+        chk.ob("O4", Site.of(fp, ecic[0].node if ecic else None, "content placement"), ok, "content inside the envelope iff blob_in_envelope" if ok else f"EncryptedContentInfo.content is {ps.text(c) if c is not None else 'missing'} when blob_in_envelope is {inside}")
+        v = ps.value
+        okt = False
+        el: t.List[ast.expr] = []
+        if isinstance(v, ast.Call) and unparse(v.func) == "b''.join" and v.args and isinstance(v.args[0], (ast.List, ast.Tuple)):
+            el = list(v.args[0].elts)
+        elif isinstance(v, ast.BinOp) and isinstance(v.op, ast.Add):
+            el = [v.left, v.right]
+        # nesting: EnvelopedData DER -> ContentInfo.content -> ContentInfo DER first in the output
+        packs = ps.calls("pack")
+        edp = [p for p in packs if ps.text(recv_of(t.cast(ast.Call, p.tree)))[:14] == "EnvelopedData(" and t.cast(ast.Call, p.tree).args]
+        cip = [p for p in packs if ps.text(recv_of(t.cast(ast.Call, p.tree)))[:12] == "ContentInfo(" and t.cast(ast.Call, p.tree).args]
+        ok3 = False
+        if len(edp) == 1 and len(cip) == 1:
+            w1, w2 = t.cast(ast.Call, edp[0].tree).args[0], t.cast(ast.Call, cip[0].tree).args[0]
+            civ = recv_of(t.cast(ast.Call, cip[0].tree))
+            cikw = _kw(t.cast(ast.Call, civ), repo.cls("_pkcs7.ContentInfo")) if isinstance(civ, ast.Call) else {}
+            cc = cikw.get("content")
+            ok3 = ps.text(w1) == "ASN1Writer()" and ps.text(w2) == "ASN1Writer()" and ps.key(w1) != ps.key(w2) and cc is not None and ps.key(cc) == f"{ps.key(w1)}.get_data#{getattr(cc, '_uid', 0)}()"
+            if len(el) == 2:
+                e0 = el[0]
+                okt = isinstance(e0, ast.Call) and isinstance(e0.func, ast.Attribute) and e0.func.attr == "get_data" and ps.key(e0.func.value) == ps.key(w2) and ps.text(el[1]) == ("b''" if inside else "self.enc_content")
+        chk.ob("O3", Site.of(fp, construct="nesting"), ok3, "EnvelopedData DER (own writer) becomes ContentInfo.content, ContentInfo is written with a fresh writer")
+        chk.ob("O4", site, okt, "content trails the ContentInfo iff not blob_in_envelope" if okt else f"the trailing layout is not 'ContentInfo || enc_content' exactly when the content is not in the envelope (returns {ps.text(v)[:100]} when blob_in_envelope is {inside})")
+    chk.ob("O4", Site.of(fp, construct="both layouts"), seen == {True, False}, "pack has the in-envelope and the trailing layout" if seen == {True, False} else "pack no longer offers both layouts")
     # the element is omitted (not written empty) when there is no content
     ew = repo.method("_pkcs7.EncryptedContentInfo", "pack")
     w = WriterShape(repo, ew).extract(ew.params[1])
@@ -322,29 +401,39 @@ def layouts(repo: Repo, chk: Check) -> None:
     oko = len(opt) == 1 and opt[0].optional == "self.content"
     chk.ob("O4", Site.of(ew, opt[0].node if opt else None, None if opt else "encryptedContent"), oko, "encryptedContent [0] is omitted when the content is empty (DER OPTIONAL absent)" if oko else f"encryptedContent is written when '{opt[0].optional if opt else '?'}': with the trailing layout an empty [0] element is emitted and shadows the trailing ciphertext")
     # unpack: slice at the end of the outer TLV, fall back to the trailing bytes when the envelope has no content
-    utxt = unparse(fu.node)
-    ok1 = "remaining_data = view[header.tag_length + header.length:]" in utxt and "ContentInfo.unpack(view[:header.tag_length + header.length], header=header)" in utxt and "header = ASN1Reader(view).peek_header()" in utxt
-    chk.ob("O4", Site.of(fu, construct="outer TLV boundary"), ok1, "trailing data starts at tag_length + length of the outer TLV" if ok1 else "the boundary between the ContentInfo and the trailing ciphertext is not header.tag_length + header.length")
-    asg = [n for n in body_nodes(fu.node) if isinstance(n, ast.Assign) and unparse(n.targets[0]) == "enc_content"]
-    ok2 = len(asg) == 1 and isinstance(asg[0].value, ast.BoolOp) and isinstance(asg[0].value.op, ast.Or) and unparse(asg[0].value.values[0]) == "enveloped_data.encrypted_content_info.content" and unparse(asg[0].value.values[1]) == "remaining_data.tobytes()"
-    chk.ob("O4", Site.of(fu, asg[0] if asg else None, None if asg else "enc_content"), ok2, "content = envelope content, else the trailing bytes (empty counts as absent)" if ok2 else f"enc_content is '{unparse(asg[0].value) if asg else '?'}': the trailing ciphertext must be used whenever the envelope carries no (or empty) content")
-    # ContentInfo / EnvelopedData nesting in pack
-    ptxt = unparse(fp.node)
-    ok3 = "enveloped_data.pack(writer)" in ptxt and "content=writer.get_data()" in ptxt and "content_info.pack(writer)" in ptxt
-    chk.ob("O3", Site.of(fp, construct="nesting"), ok3, "EnvelopedData DER becomes ContentInfo.content")
-    ok4 = "EnvelopedData.unpack(content_info.content)" in utxt and "KeyIdentifier.unpack(kek_info.kekid.key_identifier)" in utxt and "ProtectionDescriptor.unpack(kek_info.kekid.other.key_attr or b'')" in utxt
-    chk.ob("O1", Site.of(fu, construct="inverse nesting"), ok4, "unpack decodes the same nesting")
-    # returned fields
-    rets = [n for n in body_nodes(fu.node) if isinstance(n, ast.Return)]
-    want = {
-        "key_identifier": "key_identifier",
-        "protection_descriptor": "protection_descriptor",
-        "enc_cek": "kek_info.encrypted_key",
-        "enc_cek_algorithm": "kek_info.key_encryption_algorithm.algorithm",
-        "enc_cek_parameters": "kek_info.key_encryption_algorithm.parameters",
-        "enc_content": "enc_content",
-        "enc_content_algorithm": "enveloped_data.encrypted_content_info.algorithm.algorithm",
-        "enc_content_parameters": "enveloped_data.encrypted_content_info.algorithm.parameters",
-    }
-    got = {k.arg: unparse(k.value) for k in rets[0].value.keywords} if rets and isinstance(rets[0].value, ast.Call) else {}
-    chk.ob("O1", Site.of(fu, rets[0] if rets else None, None if rets else "return"), got == want, "every blob field is taken from the position pack wrote it to" if got == want else f"DPAPINGBlob fields are rebuilt from {got}")
+    su = Summary(fu, ["cls", "data"])
+    for ps in su.returning():
+        peek = [c for c in ps.calls("peek_header") if ps.text(recv_of(t.cast(ast.Call, c.tree))) == "ASN1Reader(memoryview(data))"]
+        cis, eds = ps.calls("ContentInfo.unpack"), ps.calls("EnvelopedData.unpack")
+        kis, pds = ps.calls("KeyIdentifier.unpack"), ps.calls("ProtectionDescriptor.unpack")
+        if not (len(peek) >= 1 and len(cis) == 1 and len(eds) == 1 and len(kis) == 1 and len(pds) == 1):
+            chk.ob("O4", Site.of(fu, construct="outer TLV boundary"), False, "the boundary between the ContentInfo and the trailing ciphertext is not header.tag_length + header.length of the peeked outer header")
+            continue
+        abbr: t.Dict[str, ast.AST] = {"H": peek[0].tree}
+        cia = ev_args(repo, fu, cis[0])
+        first = next(iter(cia.values()), None)
+        ok1 = first is not None and ps.short(first, abbr) in ("memoryview(data)[:H.tag_length + H.length]", "memoryview(data)[:H.length + H.tag_length]") and cia.get("header") is not None and ps.key(cia["header"]) == ps.key(peek[0].tree)
+        abbr.update({"CI": cis[0].tree, "ED": eds[0].tree, "KI": kis[0].tree, "PD": pds[0].tree})
+        v = ps.value
+        kws = _kw(v, blob) if isinstance(v, ast.Call) and ps.text(v.func) in ("DPAPINGBlob", "cls") else {}
+        got = {k: ps.short(x, abbr) for k, x in kws.items()}
+        encc = got.get("enc_content", "")
+        ok2 = encc in ("ED.encrypted_content_info.content or memoryview(data)[H.tag_length + H.length:].tobytes()", "ED.encrypted_content_info.content or memoryview(data)[H.length + H.tag_length:].tobytes()")
+        chk.ob("O4", Site.of(fu, cis[0].node, "outer TLV boundary"), bool(ok1) and ("H.tag_length" in encc), "trailing data starts at tag_length + length of the outer TLV" if ok1 else "the boundary between the ContentInfo and the trailing ciphertext is not header.tag_length + header.length")
+        chk.ob("O4", Site.of(fu, ps.exit_node, "enc_content"), ok2, "content = envelope content, else the trailing bytes (empty counts as absent)" if ok2 else f"enc_content is '{encc}': the trailing ciphertext must be used whenever the envelope carries no (or empty) content")
+        a_ed = [ps.short(x, abbr) for x in t.cast(ast.Call, eds[0].tree).args]
+        a_ki = [ps.short(x, abbr) for x in t.cast(ast.Call, kis[0].tree).args]
+        a_pd = [ps.short(x, abbr) for x in t.cast(ast.Call, pds[0].tree).args]
+        ok4 = a_ed == ["CI.content"] and a_ki == ["ED.recipient_infos[0].kekid.key_identifier"] and a_pd == ["ED.recipient_infos[0].kekid.other.key_attr or b''"]
+        chk.ob("O1", Site.of(fu, construct="inverse nesting"), ok4, "unpack decodes the same nesting" if ok4 else f"unpack decodes EnvelopedData from {a_ed}, KeyIdentifier from {a_ki}, ProtectionDescriptor from {a_pd}")
+        want = {
+            "key_identifier": "KI",
+            "protection_descriptor": "PD",
+            "enc_cek": "ED.recipient_infos[0].encrypted_key",
+            "enc_cek_algorithm": "ED.recipient_infos[0].key_encryption_algorithm.algorithm",
+            "enc_cek_parameters": "ED.recipient_infos[0].key_encryption_algorithm.parameters",
+            "enc_content_algorithm": "ED.encrypted_content_info.algorithm.algorithm",
+            "enc_content_parameters": "ED.encrypted_content_info.algorithm.parameters",
+        }
+        bad = {k: got.get(k) for k, w_ in want.items() if got.get(k) != w_}
+        chk.ob("O1", Site.of(fu, ps.exit_node, None if ps.exit_node is not None else "return"), not bad, "every blob field is taken from the position pack wrote it to" if not bad else f"DPAPINGBlob fields are rebuilt from {bad}")
